@@ -1,5 +1,5 @@
 import WalrusVerif.Model.Meta
-namespace WalrusVerif.Meta
+namespace WalrusVerif
 namespace AMap
 variable {κ ν : Type} [DecidableEq κ]
 
@@ -38,6 +38,10 @@ theorem get?_insert (m : AMap κ ν) (k j : κ) (v : ν) :
   · simp [h, get?_insert_ne m k j v h]
 
 end AMap
+end WalrusVerif
+
+namespace WalrusVerif.Meta
+open WalrusVerif
 
 /-- What C18 asks of one topic. -/
 structure TopicInv (t : TopicState) : Prop where
